@@ -193,6 +193,9 @@ func (mgr *GCMgr) gc(bkt *Bucket, startChunkID, endChunkID int, merge bool) {
 	gc := &bkt.GCHistory[len(bkt.GCHistory)-1]
 	// add gc to mgr's stat map
 	mgr.mu.Lock()
+	if reg, ok := mgr.stat[bkt]; ok && reg.CancelFlag {
+		gc.CancelFlag = true // cancelled between the request and the start of the pass
+	}
 	mgr.stat[bkt] = gc
 	mgr.mu.Unlock()
 	gc.Running = true
